@@ -52,7 +52,7 @@ class Check(PropCheck):
             mode = rng.choice(['exact', 'exact', 'none', 'mod'])
             kind = rng.random()
             if kind < 0.4:
-                t = gen.rand_tree(rng, n, mode, p_multi=0.0, internal_names=0.2, root_len=rng.random() < 0.3)
+                t = gen.rand_tree(rng, n, mode, p_multi=0.0, internal_names=0.2, root_len=rng.random() < 0.3, p_missing=rng.choice([0, 0, 0, 0.2]))
                 if mode == 'exact' and rng.random() < 0.25:
                     for nd in t.nodes():
                         if nd.length is not None and rng.random() < 0.3:
